@@ -174,8 +174,9 @@ def abs_value(x, _depth=0):
     if kk == "KeyedList":
         return ["KeyedList", [abs_value(e, _depth + 1) for e in x.__dict__.get("_list", [])]]
     if kk == "KeyedSet":
-        return ["KeyedSet", [[abs_value(k, _depth + 1), abs_value(v, _depth + 1)]
-                             for k, v in x.__dict__.get("_dict", {}).items()]]
+        # a set: iteration order is not part of its abstract value
+        return ["KeyedSet", sorted(([abs_value(k, _depth + 1), abs_value(v, _depth + 1)]
+                                    for k, v in x.__dict__.get("_dict", {}).items()), key=repr)]
     if isinstance(x, Box):
         return ["Box", abs_value(x.v, _depth + 1)]
     if is_spec_instance(x):
